@@ -1,6 +1,7 @@
 """C15 - evaluation is pure: no input mutation, no history, option or worker dependence."""
 from __future__ import annotations
 
+import contextlib
 import os
 import shutil
 import tempfile
@@ -21,7 +22,9 @@ RULE = (
     "with result_all/save_group_times/log_times/verbose each in {unset, False, True}; construct further objects with "
     "default arguments (evaluator, EdgeCaseHandler, matchers) or a random evaluator and use it; construct an aggregator "
     "(with/without log_times) on ev_i in a scratch directory and feed it (optionally make_statistic); load a shipped "
-    "config; read ev_i.resulting_metric_keys; save_to_config(ev_i); evaluate with the real multiprocessing pools. Oracle: "
+    "config; read ev_i.resulting_metric_keys; save_to_config(ev_i); evaluate with the real multiprocessing pools; evaluate "
+    "while the process reports 1/2/3/5 CPUs (serial and real pools); hand one processing-pair object to panoptic_evaluate "
+    "twice (both results must be identical). Oracle: "
     "pristine baselines - a server process forked right after import, before any panoptica object exists, forks one "
     "grandchild per (configuration, input) request; after every step the step's result (lazy attributes forced) equals "
     "the baseline exactly, caller arrays are byte-identical and keep dtype/shape/flags, resulting_metric_keys and the "
@@ -32,7 +35,7 @@ ASSUMPTIONS = [
     "serial pool stand-in everywhere except the explicit real-pool steps, which compare against it",
     "computation_time is excluded from comparisons (wall clock)",
 ]
-BUDGET = {"quick": 50, "thorough": 400}
+BUDGET = {"quick": 80, "thorough": 500}
 STEPS = {"quick": 12, "thorough": 25}
 BOUNDS = {"steps": "<=12 (quick) / <=25 (thorough)", "evaluators": "<=3", "inputs": "<=4"}
 TIMEOUT = {"quick": 1500, "thorough": 6 * 3600}
@@ -125,10 +128,14 @@ def ev_cfg(draw, it, labels):
 
 @st.composite
 def step(draw, nev, nin):
-    op = draw(st.sampled_from(["evaluate"] * 5 + ["construct", "construct", "aggregate", "aggregate", "load_shipped", "keys", "save", "real_pool"]))
+    op = draw(st.sampled_from(["evaluate"] * 5 + ["construct", "construct", "aggregate", "aggregate", "load_shipped", "keys", "save", "real_pool", "pair_twice"]))
     s = {"op": op, "ev": draw(st.integers(0, nev - 1)), "in": draw(st.integers(0, nin - 1))}
+    if op in ("evaluate", "real_pool") and draw(st.booleans()):
+        s["cpus"] = draw(st.sampled_from([1, 2, 2, 3, 5]))  # number of CPUs the process sees
     if op == "evaluate":
         s.update({"result_all": draw(OPT), "sgt": draw(OPT), "lt": draw(OPT), "vb": draw(OPT)})
+    elif op == "pair_twice":
+        s["vb"] = draw(st.booleans())
     elif op == "construct":
         s["what"] = draw(st.sampled_from(["evaluator_default", "handler_default", "naive_default", "merge_default", "evaluator_random_used",
                                           "evaluator_decision_outside_metrics", "evaluator_no_global_metrics", "approximator_default_used", "groups_object"]))
@@ -137,6 +144,25 @@ def step(draw, nev, nin):
     elif op == "load_shipped":
         s["name"] = draw(st.sampled_from(["panoptica_evaluator_BRATS", "panoptica_evaluator_ISLES", "panoptica_evaluator_VERSE", "panoptica_evaluator_unmatched_instance"]))
     return s
+
+
+@st.composite
+def tie_input(draw, label):
+    """1-D semantic maps whose components form blocks; in a 'tie' block one reference component
+    (6 voxels) overlaps two prediction components with exactly the same IoU (2/6 and 3/9) but
+    different volumes, so the result depends on which candidate the matcher sees first."""
+    blocks = draw(st.lists(st.sampled_from(["simple", "tie", "tie_mirrored"]), min_size=2, max_size=5))
+    ref, pred = [0], [0]
+    for b in blocks:
+        if b == "simple":
+            r, q = [1, 1, 1, 0], [0, 1, 1, 1]
+        else:
+            r, q = [1, 1, 1, 1, 1, 1, 0, 0, 0], [1, 1, 0, 1, 1, 1, 1, 1, 1]
+            if b == "tie_mirrored":
+                r, q = r[::-1], q[::-1]
+        ref += r + [0, 0]
+        pred += q + [0, 0]
+    return {"pred": [x * label for x in pred], "ref": [x * label for x in ref], "layout": "C", "tie": True}
 
 
 def history(max_steps):
@@ -151,6 +177,8 @@ def history(max_steps):
         for _ in range(nin):
             p, r = draw(gen.pair(ndims=(nd,), k=len(labels) + 1, derived_weight=3))
             ins.append({"pred": _map_to_labels(p, labels).tolist(), "ref": _map_to_labels(r, labels).tolist(), "layout": draw(st.sampled_from(["C", "C", "F", "neg"]))})
+        if it == "SEMANTIC" and draw(st.integers(0, 2)) == 0:
+            ins[draw(st.integers(0, nin - 1))] = draw(tie_input(labels[0]))
         if nin >= 2 and draw(st.booleans()):  # one input is another one with prediction and reference exchanged
             ins[-1] = {"pred": ins[0]["ref"], "ref": ins[0]["pred"], "layout": ins[-1]["layout"]}
         steps = draw(st.lists(step(nev, nin), min_size=3, max_size=max_steps))
@@ -164,6 +192,22 @@ def searches(tier):
 
 
 # ----------------------------------------------------------------------------- execution
+@contextlib.contextmanager
+def cpus(n):
+    """The process reports n CPUs (default size of multiprocessing.Pool())."""
+    if n is None:
+        yield
+        return
+    saved = {k: getattr(os, k) for k in ("cpu_count", "process_cpu_count") if hasattr(os, k)}
+    try:
+        for k in saved:
+            setattr(os, k, lambda n=n: n)
+        yield
+    finally:
+        for k, v in saved.items():
+            setattr(os, k, v)
+
+
 def exact_diff(a, b):
     """Observations must be identical (NaN==NaN)."""
     da, db = a["dict"], b["dict"]
@@ -185,6 +229,7 @@ def check(case, stats):
     from panoptica import Panoptica_Aggregator, Panoptica_Evaluator
     from panoptica.instance_matcher import MaximizeMergeMatching, NaiveThresholdMatching
     from panoptica.utils.edge_case_handling import EdgeCaseHandler
+    from panoptica.panoptica_evaluator import panoptic_evaluate
 
     if MY_SERVER is None:
         raise H.HarnessError("pristine server not started")
@@ -219,9 +264,10 @@ def check(case, stats):
                     for key, name in (("sgt", "save_group_times"), ("lt", "log_times"), ("vb", "verbose")):
                         if s[key] is not None:
                             kw[name] = s[key]
-                    out = H.lib_call(evs[i].evaluate, p, r, **kw)
+                    with cpus(s.get("cpus")):
+                        out = H.lib_call(evs[i].evaluate, p, r, **kw)
                 else:
-                    with H.real_pools():
+                    with H.real_pools(), cpus(s.get("cpus")):
                         out = H.lib_call(evs[i].evaluate, p, r)
                     n_real += 1
                 want = baseline(i, j)
@@ -277,6 +323,31 @@ def check(case, stats):
                         H.lib_call(agg.make_statistic)
                 elif op == "load_shipped":
                     H.lib_call(Panoptica_Evaluator.load_from_config_name, s["name"])
+                elif op == "pair_twice":
+                    # one processing-pair object handed to the pipeline function twice
+                    cfg = case["evaluators"][i]
+                    pair = H.lib_call(lambda: lib.input_type(cfg["input"]).value(arrays[j][0], arrays[j][1]))
+                    kw = {
+                        "instance_approximator": lib.approximator(cfg.get("backend")) if cfg["input"] == "SEMANTIC" else None,
+                        "instance_matcher": lib.matcher(cfg.get("matcher")) if cfg["input"] != "MATCHED_INSTANCE" else None,
+                        "edge_case_handler": lib.handler(cfg.get("handler")), "verbose": s["vb"],
+                    }
+                    if cfg.get("imetrics") is not None:
+                        kw["instance_metrics"] = [lib.metric(m) for m in cfg["imetrics"]]
+                    if cfg.get("gmetrics") is not None:
+                        kw["global_metrics"] = [lib.metric(m) for m in cfg["gmetrics"]]
+                    if cfg.get("decision"):
+                        kw["decision_metric"], kw["decision_threshold"] = lib.metric(cfg["decision"][0]), cfg["decision"][1]
+                    obs = []
+                    for _ in range(2):
+                        res = H.lib_call(lambda: panoptic_evaluate(input_pair=pair, **kw))[0]
+                        with H.quiet():
+                            H.lib_call(res.calculate_all)
+                        obs.append(meta.observe(res))
+                    msg = exact_diff(obs[0], obs[1])
+                    if msg:
+                        raise Violation(f"{where}: the same {cfg['input']} pair object evaluated twice by panoptic_evaluate gives different results: {msg}")
+                    stats.count("pair_objects_evaluated_twice")
                 elif op == "keys":
                     with H.quiet():
                         got = list(H.lib_call(lambda: evs[i].resulting_metric_keys))
@@ -299,5 +370,9 @@ def check(case, stats):
         shutil.rmtree(scratch, ignore_errors=True)
     if n_real:
         stats.count("real_pool_comparisons", n_real)
+    if any(x.get("tie") for x in case["inputs"]):
+        stats.count("histories_with_exactly_tied_candidates")
+    if any("cpus" in s for s in case["steps"]):
+        stats.count("histories_with_changed_cpu_count")
     ops = sorted({s["op"] for s in case["steps"]})
     stats.record(case, nontrivial, [f"input={case['input']}", f"steps={min(len(case['steps']), 12)}"] + [f"op={o}" for o in ops])
